@@ -9,7 +9,7 @@ LEVEL = "exploration"
 ENGINE = "E2 detgrid"
 TECHNIQUE = ("model-based testing: Hypothesis-generated operation histories (create, overwrite, modify, in-place update/append with state-relative offsets around segment "
              "boundaries and power-of-two segment counts, ranged reads, re-open from the cap in a fresh client) on real SDMF/MDMF nodes over the in-process grid with "
-             "generator-drawn delivery order; bytearray reference model compared after every step")
+             "generator-drawn delivery order; defer_to_thread answered synchronously or in a later turn; bytearray reference model compared after every step")
 RULE = ("each case: format in {SDMF, MDMF}, k<=3, N<=5, the mutable segment size set to a small drawn value (so files span 1-9+ segments), initial contents of a drawn size, "
         "then up to 8 operations: overwrite(len), update(offset,len) with offset in [0,size] drawn relative to segment boundaries/EOF/power-of-two segment counts, "
         "modify(append|prepend|replace|identity), read(offset,len), reopen (new client, node from the cap string); after every operation the whole file, its size and a "
